@@ -8,7 +8,7 @@ XS_TRUSTED = [
     'extraction (ExtrOcamlBasic only) + OCaml session driver ocaml/xs_drv.ml (printing, step language, host doubles for real + - * / rem)',
     'Rust session harness harness/src/xs.rs and the verif_hooks dump hooks in /repo',
     'modelled not verified: rpds containers (lists / sorted association lists), arcstr, Rc sharing (values are immutable in the model), '
-    'stdout interception; words outside the model (file I/O, exec, random, d2, enum, see, include) make a case UNSUP and it is skipped',
+    'stdout interception; words outside the model (file I/O, exec, random, d2, see, include) make a case UNSUP and it is skipped',
 ]
 XS_ASSUME = ['the hand-written mirror (Model/Vm.v Words.v Build.v Lexer.v Boot.v) matches src/*.rs on the generated sessions '
              '(differential test, not a proof)']
